@@ -150,6 +150,15 @@ def run_insert_shortcut(chk, F):
         raise AnalysisBroken('C16: several erasing if/else found in Toplex_map::insert_simplex')
     g = cand[0]
     cond = ir.skipcasts(g.get('cond'))
+    while cond is not None and cond.get('k') == 'ParenExpr' and cond.get('c'):
+        cond = ir.skipcasts(cond['c'][0])
+    # `flag == true` / `flag != false` are the flag itself
+    if cond is not None and cond.get('k') == 'BinaryOperator' and cond.get('op') in ('==', '!='):
+        a_, b_ = ir.skipcasts(cond['c'][0]), ir.skipcasts(cond['c'][1])
+        for x_, y_ in ((a_, b_), (b_, a_)):
+            if x_ is not None and x_.get('k') == 'DeclRefExpr' and y_ is not None and \
+                    y_.get('k') == 'CXXBoolLiteralExpr' and (y_.get('v') == 'true') == (cond['op'] == '=='):
+                cond = x_
     ct = ir.show(cond).replace(' ', '')
     ok = None
     why = ''
